@@ -204,7 +204,7 @@ def handle (j : Json) : Except String Json := do
     let hyp := Kv2.graphWf T (fun s => s.flatMap f) g flat && Kv2.uuidsOK g && Kv2.nestAllOK g flat &&
       !g.elems.isEmpty && (Kv2.nameChars T).all (fun c => f c == [c])
     pure (Json.mkObj [("text", Wire.codesOfStr (Kv2.emit Gen.Tok.tables T flat cull g)),
-      ("hyp", Json.bool hyp), ("orderOK", Json.bool (Kv2.orderOK g flat)),
+      ("hyp", Json.bool hyp), ("orderOK", Json.bool (Kv2.orderOK g flat)), ("bfs", Json.bool (Kv2.bfsOrdered g)),
       ("order", Wire.ofNatList (Kv2.order g flat))])
   | "kv2parse" =>
     let s ← Wire.strOfCodes (← j.getObjVal? "text")
